@@ -940,6 +940,14 @@ static void run_ner (const std::vector<int>& lv, int k, bool is_if)
       || cbegin (a) != a.cbegin () || cend (a) != a.cend () || rbegin (a) != a.rbegin () || rend (a) != a.rend ()
       || static_cast<std::size_t> (ssize (a)) != a.size ())
     std::puts ("W! C16 a non-member accessor disagrees with the member");
+  {
+    const SN& ca = a;      // the const overloads and the c* / r* families
+    if (begin (ca) != ca.begin () || end (ca) != ca.end () || rbegin (ca) != ca.rbegin () || rend (ca) != ca.rend () || data (ca) != ca.data ()
+        || crbegin (a) != a.crbegin () || crend (a) != a.crend () || cbegin (ca) != ca.cbegin () || cend (ca) != ca.cend ()
+        || size (ca) != ca.size () || empty (ca) != ca.empty () || static_cast<std::size_t> (ssize (ca)) != ca.size ()
+        || static_cast<std::size_t> (end (ca) - begin (ca)) != ca.size () || static_cast<std::size_t> (rend (a) - rbegin (a)) != a.size ())
+      std::puts ("W! C16 a non-member accessor (const / reverse family) disagrees with the member");
+  }
   { SN x (lv.begin (), lv.end (), AllocI (0)), y (AllocI (0)); y.push_back (42); swap (x, y);
     if (x.size () != 1 || x[0] != 42 || y.size () != lv.size ()) std::puts ("W! C16 non-member swap disagrees with the member"); }
   if (! same) std::puts ("W! C16 non-member erase/erase_if differs from std::vector");
